@@ -70,7 +70,6 @@ Theorem C01_function_block_body : forall w00 fb w0 nm w1 (l : StStmtProofs.sl to
   StStmtProofs.wf_l token StInstance.tok_class StInstance.op_level l ->
   StExprProofs.all_triv token StInstance.tok_class w2 -> t_kind en = KEndFunctionBlock ->
   StExprProofs.all_triv token StInstance.tok_class w3 ->
-  StParser.in_scope token StInstance.tok_class (StStmtProofs.flat_l token l ++ w2 ++ en :: w3) = true ->
   StInstance.parse_fb_tokens (w00 ++ fb :: w0 ++ nm :: w1 ++ StStmtProofs.flat_l token l ++ w2 ++ en :: w3)
   = StInstance.OParsed (StStmtProofs.erase_l token t_text StInstance.tok_num l).
 Proof. exact StInstanceProofs.parse_fb_spelled. Qed.
